@@ -358,8 +358,11 @@ def enabledSteps (s : State) (pids : List Nat) : List Nat :=
 
 /-! ### several source paths (several cache keys)
 
-  `CacheStore._get_filename` maps the path of a dependency GIR, as it was given, to the NAME of its
-  cache entry (sha1 of the path).  A `Family` holds one single-key state per entry name: the source
+  `CacheStore._get_filename` maps the path of a dependency GIR to the NAME of its cache entry: sha1
+  of `os.path.abspath(path)`, taken in the working directory of the calling process.  A `Path` of a
+  family is therefore an ABSOLUTE, normalised path (no `.`, `..`, `//`; symlinks not resolved): two
+  spellings with one abspath name one file and rightly share the entry, the same relative spelling
+  used from two working directories is two `Path`s.  A `Family` holds one single-key state per entry name: the source
   file that name stands for, the entry of that name, the operations (store / load, source
   modifications) addressed to it.  An event is addressed to a path and acts on the state of the
   path's entry name.  (The version check / purge is an operation on the directory, not on a path:
